@@ -17,7 +17,7 @@ import subprocess
 import sys
 import time
 
-VERIF = '/verif'
+VERIF = os.environ.get('VERIF_ROOT') or os.path.dirname(os.path.dirname(os.path.abspath(__file__)))
 REPO = os.environ.get('VERIF_REPO', '/repo')
 COQ = os.path.join(VERIF, 'coq')
 BUILD = os.path.join(VERIF, 'build')
@@ -334,8 +334,8 @@ def run_check(P, argv):
     theorems, assum = [], {}
 
     def finish():
-        cov['checker_cmd'] = 'make -C /verif/coq (coqc 8.16.1, full .vo build) && coqc Props/%s.v (Print Assumptions); ' \
-                             'correspondence: /verif/build/hq %s | coqc Run/cases_%s_*.v (vm_compute)' % (
+        cov['checker_cmd'] = 'make -C coq (coqc 8.16.1, full .vo build) && coqc Props/%s.v (Print Assumptions); ' \
+                             'correspondence: build/hq %s | coqc Run/cases_%s_*.v (vm_compute)' % (
                                  pid, ','.join(d['name'] for d in P['drivers']), pid)
         cov['trusted_base'] = P.get('trusted_base', [])
         cov['rule'] = P.get('rule', '')
